@@ -96,6 +96,7 @@ class Run:
         self.in_target_pred = False
         self.fit_sites = []
         self.n_init = None
+        self.np_init = None
         self.no_progress = 0
         self.last_calls_at_probe = 0
         self.polled_since_probe = False
@@ -111,6 +112,7 @@ class Run:
         self.injected = None
         self.first_val = None
         self.hedge_draws = 0
+        self.repeat_in_loop = 0
 
     def v(self, prop, clause, key, detail=""):
         self.viol.append((prop, clause, key, str(detail)[:400]))
@@ -135,6 +137,10 @@ def make_target(run):
         if run.m is None:
             return 100.0
         if key in run.seen:
+            if run.phase in ("search", "poll"):
+                run.repeat_in_loop += 1  # the script cannot choose this answer: f must stay a function of x
+                if run.phase == "poll":
+                    run.poll_idx += 1
             return run.seen[key]
         if phase_script is not None:
             a = "F"
@@ -253,6 +259,7 @@ def install(run, patch):
             return o_im(self)
         finally:
             run.n_init = len(run.calls)
+            run.np_init = int(np.sum(self.function_logger.X_flag))
             run.phase = "loop"
 
     patch.set(BADS, "_init_mesh_", init_mesh)
@@ -683,6 +690,7 @@ def summarize(run):
         phases=[c["phase"] for c in calls],
         n_polls=len(run.polls),
         n_searches=len(run.searches),
+        repeat_in_loop=run.repeat_in_loop,
         polls=[dict(k0=p["k0"], k1=p.get("k1"), n=p.get("c1", p["c0"]) - p["c0"], it=p["it"]) for p in run.polls],
         result=None,
     )
@@ -692,7 +700,14 @@ def summarize(run):
             func_count=int(r["func_count"]), message=msg_code(r["message"]), mesh_size=float(r["mesh_size"]),
             iterations=int(r["iterations"]), target_type=r["target_type"],
         )
-    if run.bads is not None:
+    if run.bads is not None and hasattr(run.bads, "function_logger"):
+        o = run.bads.options
+        try:
+            out["impl"] = dict(ntry=int(o["search_n_try"]), tsi=int(o["tol_stall_iters"]), acc_steps=int(o["accelerate_mesh_steps"]),
+                               np_init=run.np_init, maxfe_eff=int(o["max_fun_evals"]), nfs_eff=int(o["noise_final_samples"]),
+                               max_iter=int(o["max_iter"]), cap=int(o["max_poll_grid_number"]))
+        except Exception as e:  # noqa
+            out["impl"] = dict(error=repr(e))
         fl = run.bads.function_logger
         out["fl_func_count"] = int(fl.func_count)
         out["fl_Xn"] = int(fl.Xn)
